@@ -1433,46 +1433,72 @@ func ruleLookBehindGuarded(c *Ctx, rule string) {
 		}
 		return false
 	}
-	// helpers that only forward the read: one block, the result returned
-	forwards := map[*ssa.Function]bool{}
-	for _, fn := range c.SrcFuncs("engine") {
-		if len(fn.Blocks) != 1 {
-			continue
-		}
-		instrsOf(fn, func(in ssa.Instruction) {
-			if call, ok := in.(*ssa.Call); ok && lookBehind(call) {
-				forwards[fn] = true
+	// a function with a look-behind that it does not guard itself hands the obligation to its callers; the handlers of
+	// instructions (they take a bytecode instruction) and functions nothing in the package calls are where it ends
+	fns := c.SrcFuncs("engine")
+	isTop := func(fn *ssa.Function) bool {
+		for _, p := range fn.Params {
+			if nt, ok := deref(p.Type()).(*types.Named); ok && nt.Obj().Pkg() != nil && nt.Obj().Pkg().Path() == modRoot+"/libvore/bytecode" {
+				return true
 			}
-		})
+		}
+		for _, g := range fns {
+			if len(callsTo(g, fn)) > 0 {
+				return false
+			}
+		}
+		return true
+	}
+	needs := map[*ssa.Function]bool{}
+	type site struct {
+		fn   *ssa.Function
+		call *ssa.Call
+		ok   bool
+	}
+	var sites []site
+	for round := 0; round < 5; round++ {
+		sites = sites[:0]
+		grew := false
+		for _, fn := range fns {
+			instrsOf(fn, func(in ssa.Instruction) {
+				call, ok := in.(*ssa.Call)
+				if !ok {
+					return
+				}
+				sc := call.Call.StaticCallee()
+				if !(lookBehind(call) || (sc != nil && needs[sc])) {
+					return
+				}
+				g := guarded(fn, call)
+				sites = append(sites, site{fn, call, g})
+				if !g && !needs[fn] && !isTop(fn) {
+					needs[fn] = true
+					grew = true
+				}
+			})
+		}
+		if !grew {
+			break
+		}
 	}
 	n := 0
-	for _, fn := range c.SrcFuncs("engine") {
-		if forwards[fn] {
-			continue
+	perFn := map[*ssa.Function]int{}
+	for _, st := range sites {
+		n++
+		perFn[st.fn]++
+		what := "READAT(currentFileOffset-k)"
+		if sc := st.call.Call.StaticCallee(); sc != readAt {
+			what = sc.Name() + "() (reads in front of the position)"
 		}
-		k := 0
-		instrsOf(fn, func(in ssa.Instruction) {
-			call, ok := in.(*ssa.Call)
-			if !ok {
-				return
-			}
-			sc := call.Call.StaticCallee()
-			if !(lookBehind(call) || (sc != nil && forwards[sc])) {
-				return
-			}
-			n++
-			k++
-			what := "READAT(currentFileOffset-k)"
-			if sc != readAt {
-				what = sc.Name() + "() (reads in front of the position)"
-			}
-			ob := r.Ob(rule, fmt.Sprintf("%s: look-behind #%d stands behind a test of the position", fnName(fn), k), c.pos(call.Pos()))
-			if guarded(fn, call) {
-				ob.OKnt("a comparison of currentFileOffset with a constant, or a CONSUME, dominates the read")
-			} else {
-				ob.Bad(what + " is reached without any test of currentFileOffset and without a CONSUME in front of it: at the start of the input it seeks to a negative position and the run panics")
-			}
-		})
+		ob := r.Ob(rule, fmt.Sprintf("%s: look-behind #%d stands behind a test of the position", fnName(st.fn), perFn[st.fn]), c.pos(st.call.Pos()))
+		switch {
+		case st.ok:
+			ob.OKnt("a comparison of currentFileOffset with a constant (also inside a predicate of the state), or a CONSUME, dominates the read")
+		case needs[st.fn]:
+			ob.OK("not guarded here: the obligation lies with the callers of " + st.fn.Name())
+		default:
+			ob.Bad(what + " is reached without any test of currentFileOffset and without a CONSUME in front of it: at the start of the input it seeks to a negative position and the run panics")
+		}
 	}
 	r.Floor(rule, "reads in front of the current position", n, 4)
 }
@@ -2034,4 +2060,131 @@ func ruleRenderingReadOnly(c *Ctx, rule string) {
 	}
 	r.Ob(rule, "functions of package engine reachable from the renderings", "").OK(fmt.Sprintf("%d examined for writes into maps they did not make", n))
 	r.Floor(rule, "functions reachable from the renderings", n, 3)
+}
+
+// ---------------------------------------------------------------------------------------------
+// C09.R27: a name that one command may have renamed is not looked up again for the next.
+//
+// With -filenames a replace command renames the files it is run on. RunFiles walks the commands in its outer loop and looks every
+// name of its list up again (os.Stat, panic on error) for every command: after the first command has renamed an explicitly named
+// file, the second command's Stat fails and the run panics with an I/O error that the program itself provoked - not the kind of
+// operating-system failure that C09.R1 leaves outside the property. Decided on the shape: inside the loop over the commands, a
+// rename (os.Rename, directly or in a repository function called there) together with a look-up (os.Stat/Lstat/Open/ReadDir whose
+// error panics) of a name that comes from the function's own list of names.
+func ruleNamesSurviveTheCommandLoop(c *Ctx, rule string) {
+	r := c.R
+	fn := c.Fn("engine", "RunFiles")
+	ob := r.Ob(rule, "engine.RunFiles: names renamed by one command are not looked up again for the next", "")
+	if fn == nil {
+		ob.Und("engine.RunFiles not found")
+		return
+	}
+	ob.Pos = c.pos(fn.Pos())
+	var loop []*ssa.BasicBlock
+	for _, comp := range sccs(fn, func(a, b *ssa.BasicBlock) bool { return true }) {
+		over := false
+		for _, b := range comp {
+			for _, in := range b.Instrs {
+				if ia, ok := in.(*ssa.IndexAddr); ok {
+					if sl, ok := ia.X.Type().Underlying().(*types.Slice); ok {
+						if nt, ok := sl.Elem().(*types.Named); ok && nt.Obj().Name() == "Command" {
+							over = true
+						}
+					}
+				}
+			}
+		}
+		if over && len(comp) > len(loop) {
+			loop = comp
+		}
+	}
+	if loop == nil {
+		ob.Und("no loop over the commands of the program in this function")
+		return
+	}
+	var names *ssa.Parameter
+	for _, p := range fn.Params {
+		if sl, ok := p.Type().Underlying().(*types.Slice); ok {
+			if bt, ok := sl.Elem().Underlying().(*types.Basic); ok && bt.Kind() == types.String {
+				names = p
+			}
+		}
+	}
+	isOS := func(f *ssa.Function, fnNames ...string) bool {
+		if f == nil || f.Pkg == nil || f.Pkg.Pkg.Path() != "os" {
+			return false
+		}
+		for _, n := range fnNames {
+			if f.Name() == n {
+				return true
+			}
+		}
+		return false
+	}
+	fromNames := func(v ssa.Value) bool {
+		seen := map[ssa.Value]bool{}
+		var walk func(v ssa.Value, d int) bool
+		walk = func(v ssa.Value, d int) bool {
+			if v == nil || seen[v] || d > 10 {
+				return false
+			}
+			seen[v] = true
+			if v == ssa.Value(names) {
+				return true
+			}
+			if in, ok := v.(ssa.Instruction); ok {
+				for _, op := range in.Operands(nil) {
+					if *op != nil && walk(*op, d+1) {
+						return true
+					}
+				}
+			}
+			return false
+		}
+		return names != nil && walk(v, 0)
+	}
+	renameAt, lookupAt := "", ""
+	for _, b := range loop {
+		for _, in := range b.Instrs {
+			call, ok := in.(*ssa.Call)
+			if !ok {
+				continue
+			}
+			sc := call.Call.StaticCallee()
+			if sc == nil {
+				continue
+			}
+			switch {
+			case isOS(sc, "Rename"):
+				renameAt = c.pos(call.Pos())
+			case isOS(sc, "Stat", "Lstat", "Open", "ReadDir", "ReadFile"):
+				if len(call.Call.Args) > 0 && fromNames(call.Call.Args[0]) {
+					lookupAt = c.pos(call.Pos())
+				}
+			case c.isRepoFn(sc):
+				handedName := false
+				for _, a := range call.Call.Args {
+					if fromNames(a) {
+						handedName = true
+					}
+				}
+				for f := range c.Reachable(sc) {
+					if isOS(f, "Rename") && renameAt == "" {
+						renameAt = c.pos(call.Pos()) + " (in " + fnName(sc) + ")"
+					}
+					if isOS(f, "Stat", "Lstat") && handedName && lookupAt == "" {
+						lookupAt = c.pos(call.Pos()) + " (in " + fnName(sc) + ")"
+					}
+				}
+			}
+		}
+	}
+	switch {
+	case renameAt != "" && lookupAt != "":
+		ob.Bad("inside the loop over the commands a file is renamed [" + renameAt + "] and a name of the list the function was handed is looked up again [" + lookupAt + "], with a panic when that fails: with -filenames and two commands the second command's look-up of an explicitly named file that the first renamed panics (`replace all 'fa' with 'ga'` then `find all 'txt'` on fa.txt)")
+	case renameAt == "":
+		ob.OKnt("nothing is renamed inside the loop over the commands")
+	default:
+		ob.OKnt("the names of the list are not looked up inside the loop over the commands")
+	}
 }
